@@ -323,6 +323,20 @@ def m_windows(c):
     return IterObj([new_cell_ptr(SeqView(s, i, i + k)) for i in range(0, max(0, n - k + 1))], 0, 'windows')
 
 
+@model('core::slice::split_at', 'core::slice::split_at_mut', 'core::str::split_at')
+def m_split_at(c):
+    from .exec import SeqView, Panic
+    s = as_seq(c.st, c.args[0])
+    n = s.length(c.st)
+    kv = z3.simplify(c.args[1].v)
+    if not z3.is_bv_value(kv):
+        raise Unsupported('split_at with a symbolic index')
+    k = kv.as_long()
+    if k > n:
+        raise Panic('split_at: mid > len')
+    return Struct('(&[T], &[T])', {0: new_cell_ptr(SeqView(s, 0, k)), 1: new_cell_ptr(SeqView(s, k, n))})
+
+
 @model('core::slice::chunks', 'core::slice::chunks_exact')
 def m_chunks(c):
     from .exec import SeqView
